@@ -157,6 +157,12 @@ def main():
         named = [l.split("'")[1] for l in lines if "sorryAx" in l and "'" in l][:8]
         broken.append("lake build failed" + (" (theorems that no longer check: %s)" % ", ".join(named) if named else "") + ": " + " | ".join(failing))
         build_log_tail = out[-4000:]
+    # a broken theorem does not stop the correspondence: the executable models are still run against the implementation when the
+    # model driver itself builds (that is where the failing input is looked for)
+    model_ok = ok
+    if not ok:
+        ok_exe, _ = vlib.lake_build(["yarel_model"])
+        model_ok = ok_exe
     n_thm = 0
     for m in mod.THEOREM_MODULES:
         if not ok:
@@ -194,7 +200,7 @@ def main():
     failures = []
     if ctx.runner is not None:
         try:
-            res = mod.correspondence(ctx, model_ok=ok)
+            res = mod.correspondence(ctx, model_ok=model_ok)
             failures = res.get("failures", [])
             coverage.update(res.get("coverage", {}))
             broken.extend(res.get("broken", []))
